@@ -18,8 +18,9 @@ What is transcribed branch by branch is what decides WHERE a value ends up:
     `tracker.Update(&item)` and THEN stores `item` back into the slot: what the tracker does to the
     item during the call (actively persisted stores) reaches the slot, what it does at commit time
     (`commitTrackedItemsValues`, separate-segment stores) does not;
-  - `fixVacatedSlot` hands `tracker.Remove` a copy of the slot it vacates — for a removal in an
-    interior node that is the SUCCESSOR item moved up from the leaf, not the item removed.
+  - `fixVacatedSlot` hands `tracker.Remove` a copy of the slot it vacates — before /repo a8e6b837, for a
+    removal in an interior node, that was the SUCCESSOR item moved up from the leaf, not the item removed
+    (`legacyRemove`); since then `RemoveCurrentItem` puts the requested item into that slot first.
   The model therefore keeps tracker items by value and returns the caller's item from `update`.
 * `persisted` (set only by refetch-and-merge) and the L2 value cache (`IsValueDataGloballyCached`:
   `SetStruct`/`GetStruct` around the blob store; a cold reader starts with an empty one) are not
@@ -207,6 +208,7 @@ structure St where
   nid : Nat := 1
   work : Option Txn := none
   trackRemoves : Bool := false   -- which `trackerRemove` the tree under test has (probed by the harness)
+  legacyRemove : Bool := false   -- `true`: the tree before /repo a8e6b837 (see `St.remove`); kept for the witness of C19-F3
 deriving Repr, Inhabited
 
 def hasKey (slots : List Item) (k : Int) : Bool := slots.any (fun it => it.key == k)
@@ -231,9 +233,14 @@ def St.update (s : St) (w : Txn) (k : Int) (v : Val) : St :=
              work := some { w with slots := w.slots.map (fun it => if it.key == k then r.item else it),
                                    tracker := r.t, persisted := w.persisted || r.persisted } }
 
-/-- `RemoveCurrentItem` of key `k`; the tracker is handed (a copy of) the slot holding key `via` -/
+/-- `RemoveCurrentItem` of key `k`.  The tracker is handed a copy of the slot that leaves the tree
+(`fixVacatedSlot`).  Since /repo a8e6b837 that slot holds the item removed, also for a removal out of an interior node
+(`RemoveCurrentItem` puts the requested item into the leaf slot it vacates after moving the successor up): the item
+handed over is the slot of key `k`.  `legacyRemove = true` is the tree before that commit: the slot vacated still held
+the SUCCESSOR — the tracker got the slot of key `via` (what the pass-through observed), C19-F3. -/
 def St.remove (s : St) (w : Txn) (k via : Int) : St :=
-  let tr := match findKey w.slots via with
+  let handedKey := if s.legacyRemove then via else k
+  let tr := match findKey w.slots handedKey with
     | none => w.tracker     -- cannot happen: the handed item is a copy of a slot
     | some handed => trackerRemove s.place s.trackRemoves w.tracker handed
   { s with work := some { w with slots := w.slots.filter (fun it => it.key != k), count := w.count - 1, tracker := tr } }
@@ -264,8 +271,8 @@ def readItem (b : Blobs) (it : Item) : Option Val :=
   | none => if it.vnf then b.get? it.id else none
 
 /-- the operations of a history, as the B-tree layer resolved them: `add`/`update`/`remove` are the calls
-that reached the tracker (`remove k via`: key `k` was removed, the item holding key `via` was handed to
-`tracker.Remove`); an operation the B-tree refused (duplicate add, key not found) changes nothing -/
+that reached the tracker (`remove k via`: key `k` was removed, the pass-through saw the item holding key `via`
+handed to `tracker.Remove` — `via = k` on the repaired tree, the model uses it only with `legacyRemove`); an operation the B-tree refused (duplicate add, key not found) changes nothing -/
 inductive Op
   | begin
   | add (k : Int) (v : Val)
